@@ -174,6 +174,7 @@ func useHasher(p *bmt.Pool, hdr []byte, writes [][]byte) (res []byte, capac int)
 		p.Put(h)
 	})
 	if !ok {
+		hangs++
 		return nil, capac
 	}
 	return res, capac
@@ -291,9 +292,17 @@ func mkUse(r *hx.Rand, n int, hdr []byte) juse {
 
 var run *hx.Run
 
+// a hasher that hangs costs a full timeout per case: after a few, stop exploring (the violations are recorded)
+var hangs int
+
+func giveUp() bool { return hangs >= 3 }
+
 // ---------------------------------------------------------------- toy stream (Coq correspondence)
 
 func doToy(jc jcase) {
+	if giveUp() {
+		return
+	}
 	pool := bmt.NewPool(bmt.NewConf(newToy, jc.SegCount, 1))
 	var uses []string
 	var tab []string
@@ -421,6 +430,9 @@ func checkKeccak(kind string, seg int, hdr []byte, ws [][]byte, res []byte, jc j
 }
 
 func doKeccak(jc jcase) {
+	if giveUp() {
+		return
+	}
 	p := kpool(jc.SegCount)
 	for _, u := range jc.Uses {
 		hdr, _ := hex.DecodeString(u.Hdr)
@@ -449,6 +461,9 @@ func bucket(n int) int {
 // the same Hasher used for several chunks with Reset in between (Hasher doc:
 // "The same hasher instance is synchronously reuseable")
 func doKeccakReset(jc jcase) {
+	if giveUp() {
+		return
+	}
 	p := kpool(jc.SegCount)
 	var results [][]byte
 	ok := hx.WithTimeout(10*time.Second, func() {
@@ -466,6 +481,7 @@ func doKeccakReset(jc jcase) {
 		p.Put(h)
 	})
 	if !ok {
+		hangs++
 		delete(kpools, jc.SegCount)
 	}
 	for i, u := range jc.Uses {
@@ -482,6 +498,9 @@ func doKeccakReset(jc jcase) {
 
 // many goroutines hashing at the same time through one pool (bmtpool when segcount == 0)
 func doConcurrent(jc jcase) {
+	if giveUp() {
+		return
+	}
 	get := bmtpool.Get
 	put := bmtpool.Put
 	seg := jc.SegCount
@@ -515,7 +534,9 @@ func doConcurrent(jc jcase) {
 		}
 		wg.Wait()
 	})
-	_ = ok
+	if !ok {
+		hangs += 3
+	}
 	for i, u := range jc.Uses {
 		hdr, _ := hex.DecodeString(u.Hdr)
 		one := jcase{Kind: "keccak", SegCount: seg, Uses: []juse{u}}
@@ -591,7 +612,7 @@ func main() {
 		}
 		doKeccak(jcase{Kind: "keccak", SegCount: seg, Uses: uses})
 	}
-	for i := 0; i < run.N(150, 3000); i++ {
+	for i := 0; i < run.N(120, 2000); i++ {
 		seg := 1 + rk.Intn(128)
 		capac := capOf(seg)
 		var uses []juse
@@ -605,14 +626,14 @@ func main() {
 		}
 	}
 	// full size
-	for i := 0; i < run.N(12, 150); i++ {
+	for i := 0; i < run.N(12, 100); i++ {
 		seg := boson.BmtBranches
 		capac := capOf(seg)
 		doKeccak(jcase{Kind: "keccak", SegCount: seg, Uses: []juse{genUse(rk, capac, boundaryLen(rk, capac))}})
 	}
 	// concurrency: many users at the same time
 	rc := r.Fork(3)
-	for round := 0; round < run.N(2, 12); round++ {
+	for round := 0; round < run.N(2, 8); round++ {
 		seg := []int{0, 0, 16, 128}[rc.Intn(4)]
 		capac := capOf(seg)
 		if seg == 0 {
@@ -628,6 +649,9 @@ func main() {
 			uses = append(uses, genUse(rc, capac, n))
 		}
 		doConcurrent(jcase{Kind: "concurrent", SegCount: seg, Uses: uses, Workers: 64})
+	}
+	if giveUp() {
+		run.Note("exploration stopped early: the hasher did not return in several cases")
 	}
 	run.Finish()
 }
